@@ -4,12 +4,27 @@ A plan is a tree of fiber bodies over a tiny instruction set (emit, yield, debug
 resume / cancel / propagate / consume / status of a child, new child, defer / edefer / with / try /
 protect / prompt / with-dyns / C-callback blocks, setdyn / dyn, return-to-prompt, and - on the event
 loop - sleep and deadline) with a signal mask and an environment flag per fiber.  Fiber -1 is the
-root task: it resumes / cancels fiber 0 a few times and then abandons it.  Part of the plans run
-with sleeps inside the tree while sibling tasks `ev/cancel` the root task and `ev/deadline`s expire
+root task: it resumes / cancels / consumes fiber 0 a few times and then abandons it.  30% of the plans
+run with sleeps inside the tree while sibling tasks `ev/cancel` the root task and `ev/deadline`s expire
 at simulated times, so that cancellation lands on suspension points at every depth.
 
 Oracle: c05_model.py interprets the same plan; the real run must emit the same event sequence
-(values received by yield/resume, statuses, last values, cleanup forms, dynamic bindings)."""
+(values received by yield/resume, statuses, last values, cleanup forms, dynamic bindings).  Every
+instruction has a number n (pre-order over the plan) and reports `(sim/ev :kind fiber n ...)`.
+
+Three defects of the unchanged tree have their own, attributed signatures (the check is not loosened;
+they are reported until they are recorded in known_findings.json or fixed):
+  C05/status/fiber-continuing-its-child-is-not-alive/re-entered-by-its-own-descendant
+      janet_continue_no_check marks a fiber :alive only after it has continued fiber->child, so a fiber
+      resumed while linked to a suspended child (also the hidden fibers of defer/try/...) still reads
+      :pending and can be resumed / cancelled / propagated by its own descendant: re-entry, crashes.
+  C05/cleanup/skipped/suspending-signal-coerced-to-error-at-c-boundary
+      defer/edefer/with inside a callback invoked from C: a yield/await/user5-9 in the body becomes an
+      error at the C frame and the cleanup form never runs.
+  C05/propagate/from-dead-fiber-inside-c-callback-corrupts-the-fiber-stack
+      (propagate x dead-fiber) "returns" from run_vm without popping the frame; inside janet_call the
+      caller goes on with a corrupt stack.  (Outside C callbacks the effect of propagating from a dead
+      fiber is unspecified: whatever follows it in a run is accepted.)"""
 import json
 import random
 
@@ -528,38 +543,58 @@ class C05(Driver):
         m, tie = self._model_of(plan)
         if tie:
             return []
-        hint = ""
         exp = [M.render_event(e) for e in m.events]
         act = [(e.kind, M.norm(e.payload)) for e in res.user_events()]
         ops = self.block_kinds(plan)
-        vs = []
+        run_bad = res.outcome != "ok"
         # --- independent of the model: nothing but generator items may be emitted twice
+        dup = None
         seen = set()
-        for k, p in act:
+        for idx, (k, p) in enumerate(act):
             if k in ("it", "g"):
                 continue
             t = tokens(p)
             key = (k, t[0], t[1]) if len(t) >= 2 else (k, p)
             if key in seen:
                 if k == "c":
-                    vs.append(Violation("C05/cleanup/ran-twice/%s" % ops.get(int(t[1]), "?"),
-                                        "cleanup form of block %s in fiber %s ran more than once" % (t[1], t[0])))
+                    dup = (idx, Violation("C05/cleanup/ran-twice/%s" % ops.get(int(t[1]), "?"),
+                                          "cleanup form of block %s in fiber %s ran more than once" % (t[1], t[0])))
                 else:
-                    vs.append(Violation("C05/status/instruction-ran-twice/%s" % k,
-                                        "event %s %s emitted twice" % (k, p)))
+                    dup = (idx, Violation("C05/status/instruction-ran-twice/%s" % k, "event %s %s emitted twice" % (k, p)))
                 break
             seen.add(key)
         # --- the same event sequence as the model
         i = 0
         while i < len(exp) and i < len(act) and exp[i] == act[i]:
             i += 1
-        if i < len(exp) or i < len(act):
+        diverged = i < len(exp) or i < len(act)
+        cut = m.unspecified_at
+        if cut is not None and (not diverged or i >= cut) and (dup is None or dup[0] >= cut):
+            # The plan propagated from a :dead fiber.  The property and the documentation are silent on
+            # what that does, so whatever follows is accepted - except memory corruption: inside a
+            # callback invoked from C the unchanged tree "returns" without popping the frame.
+            if m.hazard2_at is not None:
+                refused = diverged and i < len(act) and "cannot propagate from fiber with status :dead" in act[i][1]
+                if run_bad or dup is not None or (diverged and not refused):
+                    return [self.classify(plan, m, exp, act, i, ops, res)]
+                return []
+            if run_bad:
+                return [Violation("C05/run/%s" % res.outcome.split(":")[0], (res.log or "")[-400:].replace("\n", " | "))]
+            return []
+        vs = []
+        if dup is not None:
+            vs.append(dup[1])
+        if diverged:
             v = self.classify(plan, m, exp, act, i, ops, res)
             if v.sig in self.ATTRIBUTED:
                 vs = []         # everything else in this run is a consequence
             vs.append(v)
-        elif res.outcome != "ok":
-            vs.append(Violation("C05/run/%s" % res.outcome.split(":")[0], (res.log or "")[-400:].replace("\n", " | ")))
+        elif run_bad:
+            v = None
+            if m.hazard_at is not None or m.hazard2_at is not None:
+                v = self.classify(plan, m, exp, act, i, ops, res)
+            vs.append(v or Violation("C05/run/%s" % res.outcome.split(":")[0],
+                                     (res.log or "")[-400:].replace("\n", " | ")))
         elif m.dropped:
             fid, n, kind = m.dropped[0]
             vs.append(Violation("C05/cleanup/skipped/suspending-signal-coerced-to-error-at-c-boundary",
@@ -583,7 +618,7 @@ class C05(Driver):
             return Violation("C05/status/fiber-continuing-its-child-is-not-alive/re-entered-by-its-own-descendant",
                              "a fiber that was resumed while linked to a suspended child keeps its old status "
                              "(:pending, :user5..) while the child runs; a descendant could inspect / resume / cancel it. " + ctx)
-        if m.hazard2_at is not None and (i >= m.hazard2_at or res.outcome != "ok"):
+        if m.hazard2_at is not None and (i >= m.hazard2_at or res.outcome != "ok" or (E is None and A is None)):
             return Violation("C05/propagate/from-dead-fiber-inside-c-callback-corrupts-the-fiber-stack",
                              "(propagate x f) with f :dead makes the running function 'return' without popping its frame; "
                              "inside a callback invoked from C the caller continues on a corrupt stack. " + ctx)
@@ -730,8 +765,6 @@ class C05(Driver):
                 s2, i2 = self._locate(q2, fid, path)
                 s2["ins"][i2]["op"] = "defer"
                 yield q2
-            if ins["op"] == "sleep" and P.get("mode") == "ev":
-                continue
             if "v" in ins and ins["v"] not in (None, 0) and not isinstance(ins["v"], bool):
                 q2 = clone(q)
                 s2, i2 = self._locate(q2, fid, path)
